@@ -6,6 +6,7 @@ import (
 	"sync/atomic"
 
 	"go.mongodb.org/mongo-driver/bson"
+	"go.mongodb.org/mongo-driver/mongo"
 	"go.mongodb.org/mongo-driver/mongo/options"
 
 	"github.com/256dpi/lungo"
@@ -185,7 +186,7 @@ func init() {
 			}
 		}
 		triples := len(projs) - singles - pairs
-		var evals, inDomain, errorsBoth, overlapping, mutationChecks, listFinds, writeProjections int64
+		var evals, inDomain, errorsBoth, overlapping, mutationChecks, listFinds, writeProjections, emptyResultChecks int64
 		outcomes := map[string]bool{}
 		par.For(len(projs), r.TooMany, func(pi int) {
 			ents := projs[pi]
@@ -229,6 +230,15 @@ func init() {
 				before := w.DumpAll()
 				want, werr := refmodel.Project(doc, proj)
 				outsideRef := werr != nil && refmodel.IsOutside(werr)
+				// a projection that the reference rejects whatever the document is an error also when nothing matches
+				if di == 0 && werr != nil && !outsideRef && !numeric && !overlap {
+					_, ferr := coll.Find(w.Ctx, bD("_id", "matches nothing"), options.Find().SetProjection(proj))
+					oerr := coll.FindOne(w.Ctx, bD("_id", "matches nothing"), options.FindOne().SetProjection(proj)).Err()
+					atomic.AddInt64(&emptyResultChecks, 1)
+					if ferr == nil || oerr == nil || oerr == mongo.ErrNoDocuments {
+						r.Violation("accepted-on-empty-result:"+c14Shape(ents), fmt.Sprintf("projection %s must be rejected (%v) but Find / FindOne with a filter that matches nothing return (%v, %v)", J(proj), werr, ferr, oerr), map[string]interface{}{"projection": J(proj)})
+					}
+				}
 				for _, e := range ents {
 					if e.kind() != "flag" {
 						if v := refmodel.GetPath(doc, e.path); !refmodel.IsMissing(v) {
@@ -412,6 +422,7 @@ func init() {
 		r.Set("rejected_by_both", errorsBoth)
 		r.Set("stored_document_checks", mutationChecks)
 		r.Set("multi_document_finds", listFinds)
+		r.Set("rejected_projections_on_empty_results", emptyResultChecks)
 		r.Set("find_one_and_modify_projections", writeProjections)
 		r.Set("distinct_nontrivial", inDomain)
 		r.Set("exhaustive", !r.TooMany())
